@@ -493,7 +493,7 @@ class Evaluator:
     def ev_Constant(self, e, env, ctx):
         v = e.value
         if isinstance(v, bool):
-            raise Und("bool literal")
+            return StrV(repr(v))
         if isinstance(v, int):
             return PW.of(Rat.const(v))
         if isinstance(v, float):
@@ -758,6 +758,9 @@ class Evaluator:
     def _p_log1p(self, args, kw, node):
         return pw_un(as_pw(args[0]), lambda r: self.atoms.log(ONE + r))
 
+    def _p_expm1(self, args, kw, node):
+        return pw_un(as_pw(args[0]), lambda r: self.atoms.exp(r) - ONE)
+
     def _p_tanh(self, args, kw, node):
         return pw_un(as_pw(args[0]), lambda r: self.atoms.odd("tanh", r))
 
@@ -782,13 +785,19 @@ class Evaluator:
         x = as_pw(args[0])
         lo = kw.get("min", kw.get("a_min", args[1] if len(args) > 1 else None))
         hi = kw.get("max", kw.get("a_max", args[2] if len(args) > 2 else None))
-        self.atoms.clip_sites.append(("clip", x))
+        self.atoms.clip_sites.append(("clip", x, tuple(self.call_stack), node))
         if self.atoms.clip_transparent:
             return x
         return pw_un(x, lambda r: self.atoms._opaque("clip", r))
 
+    def _p_maximum(self, args, kw, node):
+        self.atoms.clip_sites.append(("maximum", as_pw(args[0]), tuple(self.call_stack), node))
+        if self.atoms.clip_transparent:
+            return as_pw(args[0])
+        return pw_bin(as_pw(args[0]), as_pw(args[1]), lambda a, b: self.atoms._opaque("max", a - b) + b)
+
     def _p_minimum(self, args, kw, node):
-        self.atoms.clip_sites.append(("minimum", as_pw(args[0])))
+        self.atoms.clip_sites.append(("minimum", as_pw(args[0]), tuple(self.call_stack), node))
         if self.atoms.clip_transparent:
             return as_pw(args[0])
         return pw_bin(as_pw(args[0]), as_pw(args[1]), lambda a, b: self.atoms._opaque("min", a - b) + b)
@@ -803,8 +812,8 @@ class Evaluator:
         return PW.of(ZERO)
 
     PRIMS = {
-        "exp": _p_exp, "log": _p_log, "log1p": _p_log1p, "tanh": _p_tanh, "abs": _p_abs,
-        "sqrt": _p_sqrt, "where": _p_where, "clip": _p_clip, "minimum": _p_minimum,
+        "exp": _p_exp, "expm1": _p_expm1, "log": _p_log, "log1p": _p_log1p, "tanh": _p_tanh, "abs": _p_abs,
+        "sqrt": _p_sqrt, "where": _p_where, "clip": _p_clip, "minimum": _p_minimum, "maximum": _p_maximum,
         "asarray": _p_identity, "array": _p_identity, "float": _p_identity,
         "ones_like": _p_ones_like, "zeros_like": _p_zeros_like,
     }
